@@ -206,10 +206,37 @@ func (t *Type) infer() *Type {
 	return &t2
 }
 
+// unify returns the type of an expression that combines two values of the
+// matching types t and t2, such as the array concatenation [] + [1] or the
+// elements of [[1] arr]. Untyped parts are replaced by their typed counterpart.
+// The result is fixed wherever t or t2 is fixed, as it can only be converted to
+// a different composite type if both values can be converted.
+func unify(t, t2 *Type) *Type {
+	if t == t2 || t == nil || t2 == nil {
+		return t
+	}
+	if t == EMPTY_ARRAY || t == EMPTY_MAP {
+		return t2
+	}
+	if t2 == EMPTY_ARRAY || t2 == EMPTY_MAP {
+		return t
+	}
+	if (t.Name != ARRAY && t.Name != MAP) || t.Name != t2.Name {
+		return t
+	}
+	sub := unify(t.Sub, t2.Sub)
+	fixed := t.Fixed || t2.Fixed
+	if sub == t.Sub && fixed == t.Fixed {
+		return t
+	}
+	return &Type{Name: t.Name, Sub: sub, Fixed: fixed}
+}
+
 func combineTypes(types []*Type) *Type {
 	combinedT := types[0]
 	for _, t := range types[1:] {
 		if combinedT.Equals(t) {
+			combinedT = unify(combinedT, t)
 			continue
 		}
 		// types are not equal, ensure that composite types can be combined
